@@ -144,6 +144,9 @@ def gen_sizer_case(rng, kind):
                 i0 = items[0]
                 if i0[1] > 0:
                     equity = k * i0[2] * S / i0[1]
+                    if rng.random() < 0.4 and len(items) == 1:
+                        # a fraction of a cent (or a few cents) to either side of the boundary: the equity is used as it is
+                        equity = k * i0[2] + rng.choice([0.001, 0.003, 0.004, 0.0049, -0.001, -0.004, 0.02, -0.02])
     else:
         param = rng.choice([1.0, 1.5, 2.0, 0.5, 5.0, 0.01, rng.uniform(0.1, 4)])
         if rng.random() < 0.08:
@@ -182,6 +185,10 @@ def gen_sizer_case(rng, kind):
             for a, w, p in items:
                 if rng.random() < 0.85:
                     h.append([a, rng.choice([w, -w, 0.0, w * 2, rng.uniform(-1, 1) if kind == 'ls' else rng.uniform(0, 1), 1.0]), p])
+            if rng.random() < 0.5:
+                # the earlier call also sized assets that the present call is not given
+                for a in [x for x in ALL if x not in [i[0] for i in items]][:1]:
+                    h.append([a, rng.choice([1.0, 0.5, -0.5 if kind == 'ls' else 0.25]), rng.choice([10.0, 123.45])])
             hist.append(h)
         case['history'] = hist
         case['same_dict'] = rng.random() < 0.6
@@ -268,7 +275,9 @@ def gen_eqw_case(rng):
 
 def run_sizer(case):
     cls = DW if case['kind'] == 'dw' else LS
-    dh = PriceDH({a: p for a, w, p in case['items']})
+    prices = {a: p for h in case.get('history', []) for a, w, p in h}
+    prices.update({a: p for a, w, p in case['items']})
+    dh = PriceDH(prices)
     res = dict(new='ok', out=None, qty=None)
     try:
         stub = StubBroker(case['equity'], case['fee'])
